@@ -176,9 +176,7 @@ PROPS = {
     ),
     'C09': dict(
         v=[('u_hdr_core', ['Multiboot2Header::load', 'Multiboot2Header::iter', 'HeaderTagHeader::payload_len', 'HeaderTagHeader::lemma_hdr_layout',
-                           'Multiboot2BasicHeader::payload_len', 'Multiboot2BasicHeader::lemma_hdr_layout'] + COMMON_V_MEM + ['walk_collect',
-                           # the references the typed getters hand out: the typed view of a tag of the walk (same address, size = tag size rounded up)
-                           'Multiboot2Header::get_tag', 'tagiter_find', 'tagiter_find_owned'])],
+                           'Multiboot2BasicHeader::payload_len', 'Multiboot2BasicHeader::lemma_hdr_layout'] + COMMON_V_MEM + ['walk_collect'])],
         k_quick=[], k_thorough=[],
     ),
     'C10': dict(
@@ -191,9 +189,7 @@ PROPS = {
     ),
     'C01': dict(
         v=[('u_mb2_core', ['BootInformation::load', 'BootInformation::has_valid_end_tag', 'BootInformation::tags', 'TagHeader::payload_len',
-                           'BootInformationHeader::payload_len'] + COMMON_V_MEM + ['walk_collect',
-                           # the references the typed getters hand out: the typed view of a tag of the walk (same address, size = tag size rounded up)
-                           'BootInformation::get_tag', 'tagiter_find', 'tagiter_find_owned']),
+                           'BootInformationHeader::payload_len'] + COMMON_V_MEM + ['walk_collect']),
            ('u_mb2_efi', ['EFIMemoryAreaIter::new', 'EFIMemoryAreaIter::next', 'EFIMemoryMapTag::memory_areas']),
            ('u_mb2_elf', ['ElfSectionsTag::sections', 'elf::ElfSectionIter::next', 'elf::ElfSection::get', 'elf::ElfSection::section_type']),
            ('u_mb2_fb', ['FramebufferTag::buffer_type', 'Reader::new', 'Reader::read_next_u8', 'Reader::read_next_u16', 'Reader::current_ptr',
